@@ -69,6 +69,9 @@ def _merge_stubs_members(obj: Module | Class, stubs: Module | Class) -> None:
             if stub_member.is_alias:
                 continue
             obj_member = obj.get_member(member_name)
+            if obj_member is stub_member:
+                # Already moved into the concrete tree by a previous merge pass.
+                continue
             if obj_member.is_alias and not obj_member.resolved:
                 # Merging must not trigger alias resolution: only merge into targets of already resolved aliases.
                 continue
